@@ -26,6 +26,13 @@ def make_cases(rng, tier, diff_here):
             k = len(nl)
             for (n, m) in ([(1, k - 1), (k - 1, 1)] if k >= 2 else [(1, 1)]) + [(1, 1), (2, 2)]:
                 cases.append(base(e, rules, b=rng.random() < 0.5, n=n, m=m, names=nl))
+    # the SAME name list used for two calls in a row (unknown and repeated names inside): a call does not edit the list it is handed
+    for e in SELECTED:
+        for nl in (["zz", "rc", "ra"], ["rb", "", "rb", "zz", "rd"], ["yy", "zz", "re"]):
+            k = len(nl)
+            c = base(e, rules, b=True, n=1, m=k - 1, names=nl, prev="stale")
+            c["again"] = True
+            cases.append(c)
     n_rand = 200 if tier == "quick" else 5000
     pool = ENTRIES_P + diff_here * 9
     for _ in range(n_rand):
